@@ -144,7 +144,7 @@ M("c08-close-no-connected-test", "C08", ("_core", "        if not self.connected
 M("c08-recv-no-close-on-loss", "C08", ("_core", "        except WebSocketConnectionClosedException:\n            if self.sock:\n                self.sock.close()\n            self.sock = None", "        except WebSocketConnectionClosedException:\n            self.sock = None"), ["R-C08-4"])
 M("c08-recv-keeps-connected", "C08", ("_core", "            self.sock = None\n            self.connected = False\n            raise", "            self.sock = None\n            raise"), ["R-C08-4"])
 M("c08-recv-timeout-drops", "C08", [("_core", "        except WebSocketConnectionClosedException:\n            if self.sock:", "        except WebSocketException:\n            if self.sock:"),
-                                    ("_core", "from ._exceptions import WebSocketProtocolException, WebSocketConnectionClosedException", "from ._exceptions import WebSocketProtocolException, WebSocketConnectionClosedException, WebSocketException")], ["R-C08-4"])
+                                    ("_core", "    WebSocketProtocolException,\n)", "    WebSocketProtocolException,\n    WebSocketException,\n)")], ["R-C08-4"])
 M("c08-shutdown-no-close", "C08", ("_core", "        if self.sock:\n            self.sock.close()\n            self.sock = None\n            self.connected = False", "        if self.sock:\n            self.sock = None\n            self.connected = False"), ["R-C08-4", "R-C08-5"])
 M("c08-close-skips-shutdown", "C08", ("_core", "        except:\n            pass\n\n        self.shutdown()", "        except:\n            return\n\n        self.shutdown()"), ["R-C08-5"])
 M("c08-socket-send-none-unchecked", "C08", ("_socket", "    if not sock:\n        raise WebSocketConnectionClosedException(\"socket is already closed.\")\n\n    def _send():", "    def _send():"), ["R-C08-6"])
@@ -193,3 +193,27 @@ M("c03-empty-read-returned", "C03", ("_socket", "    if not bytes_:\n        rai
 M("c03-mask-stage-stores-none", "C03", ("_abnf", 'self.mask_value = self.recv_strict(4) if self.has_mask() else ""', 'self.mask_value = self.recv_strict(4) if self.has_mask() else None'), expect="silent")  # unmasked frames then re-run a read-free stage: harmless
 M("c03-header-cleared-on-entry", "C03", ("_abnf", "        with self.lock:\n            # Header\n            if self.has_received_header():", "        with self.lock:\n            self.header = None\n            # Header\n            if self.has_received_header():"), ["R-C03-2"])
 M("c03-spec-stage-test-rewritten", "C03", ("_abnf", "            if self.has_received_length():\n                self.recv_length()", "            if self.length is None:\n                self.recv_length()"), expect="silent")
+
+# ------------------------------------------------------------------ C09
+M("c09-revert-fix-redirect-exhausted", "C09", ("_core", "            if self.handshake_response.status in SUPPORTED_REDIRECT_STATUSES:\n                # redirect_limit exhausted", "            if False:\n                # redirect_limit exhausted"), ["R-C09-4"])
+M("c09-status-200-success", "C09", ("_handshake", "SUCCESS_STATUSES = SUPPORTED_REDIRECT_STATUSES + (HTTPStatus.SWITCHING_PROTOCOLS,)", "SUCCESS_STATUSES = SUPPORTED_REDIRECT_STATUSES + (HTTPStatus.SWITCHING_PROTOCOLS, HTTPStatus.OK)"), ["R-C09-1"])
+M("c09-status-gate-inverted-subset", "C09", ("_handshake", "    if status not in success_statuses:", "    if status not in success_statuses and status >= 400:"), ["R-C09-1"])
+M("c09-304-redirect", "C09", ("_handshake", "    HTTPStatus.PERMANENT_REDIRECT,\n)", "    HTTPStatus.PERMANENT_REDIRECT,\n    HTTPStatus.NOT_MODIFIED,\n)"), ["R-C09-1"])
+M("c09-validate-skipped", "C09", ("_handshake", "    if not success:\n        raise WebSocketException(\"Invalid WebSocket Header\")", "    if not success:\n        pass"), ["R-C09-1"])
+M("c09-validate-true-before-digest", "C09", ("_handshake", "    result = headers.get(\"sec-websocket-accept\", None)\n    if not result:\n        return False, None", "    result = headers.get(\"sec-websocket-accept\", None)\n    if not result:\n        return True, subproto"), ["R-C09-2"])
+M("c09-digest-self-compare", "C09", ("_handshake", "    if hmac.compare_digest(hashed, result):", "    if hmac.compare_digest(hashed, hashed):"), ["R-C09-2"])
+M("c09-digest-ignored", "C09", ("_handshake", "    if hmac.compare_digest(hashed, result):\n        return True, subproto\n    else:\n        return False, None", "    hmac.compare_digest(hashed, result)\n    return True, subproto"), ["R-C09-2"])
+M("c09-guid-typo", "C09", ("_handshake", "258EAFA5-E914-47DA-95CA-C5AB0DC85B11", "258EAFA5-E914-47DA-95CA-C5AB0DC85B12"), ["R-C09-2"])
+M("c09-upgrade-substring", "C09", ("_handshake", "        r = [x.strip().lower() for x in r.split(\",\")]\n        if v not in r:", "        r = r.lower()\n        if v not in r:"), ["R-C09-2"])
+M("c09-connection-unchecked", "C09", ("_handshake", "    \"connection\": \"upgrade\",\n", ""), ["R-C09-2"])
+M("c09-no-strip", "C09", ("_handshake", "        r = [x.strip().lower() for x in r.split(\",\")]", "        r = [x.lower() for x in r.split(\",\")]"), ["R-C09-2"])
+M("c09-subproto-unchecked", "C09", ("_handshake", "        if not subproto or subproto.lower() not in [s.lower() for s in subprotocols]:", "        if not subproto:"), ["R-C09-2"])
+M("c09-subproto-case-sensitive", "C09", ("_handshake", "        if not subproto or subproto.lower() not in [s.lower() for s in subprotocols]:", "        if not subproto or subproto not in subprotocols:"), ["R-C09-2"])
+M("c09-second-key-for-validation", "C09", ("_handshake", "    success, subproto = _validate(resp, key, options.get(\"subprotocols\"))", "    success, subproto = _validate(resp, _create_sec_websocket_key(), options.get(\"subprotocols\"))"), ["R-C09-3"])
+M("c09-caller-key-not-used", "C09", ("_handshake", "        key = options[\"header\"][\"Sec-WebSocket-Key\"]", "        pass"), ["R-C09-3"])
+M("c09-connected-before-handshake", "C09", ("_core", "        try:\n            self.handshake_response = handshake(self.sock, url, *addrs, **options)", "        try:\n            self.connected = True\n            self.handshake_response = handshake(self.sock, url, *addrs, **options)"), ["R-C09-5", "R-C09-4"])
+M("c09-handler-no-close", "C09", ("_core", "        except:\n            if self.sock:\n                self.sock.close()\n                self.sock = None\n            raise", "        except:\n            if self.sock:\n                self.sock = None\n            raise"), ["R-C09-5"])
+M("c09-handler-swallows", "C09", ("_core", "                self.sock.close()\n                self.sock = None\n            raise\n", "                self.sock.close()\n                self.sock = None\n"), ["R-C09-5"])
+M("c09-extra-follow", "C09", ("_core", '            for _ in range(options.pop("redirect_limit", 3)):', '            for _ in range(options.pop("redirect_limit", 3) + 1):'), ["R-C09-4"])
+M("c09-old-socket-not-closed-on-redirect", "C09", ("_core", "                    url = self.handshake_response.headers[\"location\"]\n                    self.sock.close()\n", "                    url = self.handshake_response.headers[\"location\"]\n"), ["R-C09-5"])
+M("c09-spec-status-eq-101", "C09", ("_handshake", "    if status in SUPPORTED_REDIRECT_STATUSES:\n        return handshake_response(status, resp, None)", "    if status != 101:\n        return handshake_response(status, resp, None)"), expect="silent")
